@@ -10,8 +10,15 @@
    Abstract file system: an association list path -> entry.  A regular file carries the abstract
    identity h of what FileHash.__eq__ compares (digest, mode, size); a recorded hash is the same
    kind of identity, so `refreshed(path) == recorded` is `h = recorded` (assumption A-stat: equal
-   mtime, size, inode and mode imply equal content -- C13's subject).  Symbolic links are outside
-   the model. *)
+   mtime, size, inode and mode imply equal content -- C13's subject).
+
+   A symbolic link carries its target as a normalised path relative to the project root (assumption
+   A-links: only the last component of a path is ever a symbolic link, i.e. the directories on the way
+   are real directories; a target outside the project is a path that has no entry).  `stat` follows
+   links the way the kernel does (at most MAXSYMLINKS = 40 hops, then ELOOP); `lkind` is what lstat
+   reports.  Where the code branches on the kind of a path the branching is REGENERATED from the AST
+   (gen/GenClean.v: rdf_hash_checked, rdf_decide_first, clean_missing_follows_links,
+   clean_hash_checked). *)
 From Coq Require Import List NArith Bool.
 From SV Require Import lib.Bytes.
 From SV Require Import gen.GenClean.
@@ -19,7 +26,7 @@ From SV Require Import model.TrellisDD.
 Import ListNotations.
 Open Scope N_scope.
 
-Inductive fsent := FFile (h : N) | FDir.
+Inductive fsent := FFile (h : N) | FDir | FLink (target : str).
 Definition fsys := list (str * fsent).
 
 Definition fs_get (f : fsys) (p : str) : option fsent :=
@@ -31,9 +38,32 @@ Definition under (d p : str) : bool := is_prefix (d ++ [SLASH]) p.
 (* not any(path.iterdir()) *)
 Definition dir_empty (f : fsys) (d : str) : bool := negb (existsb (fun e => under d (fst e)) f).
 
-(* _try_remove(path.remove): os.remove succeeds on regular files only; any OSError = nothing removed *)
+(* lstat *)
+Definition lkind (f : fsys) (p : str) : fkind :=
+  match fs_get f p with
+  | None => KMissing | Some (FFile _) => KRegular | Some FDir => KDirectory | Some (FLink _) => KSymlink
+  end.
+
+(* os.stat: follows symbolic links; a dangling link, or more than MAXSYMLINKS hops (ELOOP), is an OSError *)
+Inductive statres := SMissing | SFile (h : N) | SDir.
+Fixpoint stat_fuel (fuel : nat) (f : fsys) (p : str) : statres :=
+  match fs_get f p with
+  | None => SMissing
+  | Some (FFile h) => SFile h
+  | Some FDir => SDir
+  | Some (FLink t) => match fuel with O => SMissing | S k => stat_fuel k f t end
+  end.
+Definition MAXSYMLINKS : nat := 40.
+Definition stat (f : fsys) (p : str) : statres := stat_fuel MAXSYMLINKS f p.
+
+(* what os.remove (unlink) can take away: a regular file or a symbolic link, never a directory *)
+Definition is_unlinkable (o : option fsent) : bool :=
+  match o with Some (FFile _) => true | Some (FLink _) => true | _ => false end.
+
+(* _try_remove(path.remove): os.remove unlinks regular files and symbolic links (the link, never its target);
+   any OSError (a directory, nothing there) = nothing removed *)
 Definition rm_file (f : fsys) (p : str) : fsys * bool :=
-  match fs_get f p with Some (FFile _) => (fs_del f p, true) | _ => (f, false) end.
+  if is_unlinkable (fs_get f p) then (fs_del f p, true) else (f, false).
 
 (* path.is_dir() and not any(path.iterdir()) and _try_remove(path.rmdir) *)
 Definition rmdir_if_empty (f : fsys) (d : str) : fsys * bool :=
@@ -42,10 +72,10 @@ Definition rmdir_if_empty (f : fsys) (d : str) : fsys * bool :=
   | _ => (f, false)
   end.
 
-(* FileHash.refreshed: unknown when stat fails, HashError on a directory *)
+(* FileHash.refreshed: os.stat (follows links); unknown when stat fails, HashError on a directory *)
 Inductive rhash := RUnknown | RKnown (h : N) | RErr.
 Definition refreshed (f : fsys) (p : str) : rhash :=
-  match fs_get f p with None => RUnknown | Some (FFile h) => RKnown h | Some FDir => RErr end.
+  match stat f p with SMissing => RUnknown | SFile h => RKnown h | SDir => RErr end.
 
 (* descending insertion sort on code points = sorted(..., reverse=True) on str *)
 Fixpoint insert_desc (x : str) (l : list str) : list str :=
@@ -61,24 +91,41 @@ Fixpoint dedup (l : list str) : list str :=
   | x :: t => if existsb (str_eqb x) t then dedup t else x :: dedup t
   end.
 
-(* One queued file of remove_deletable_files.  Returns the new file system and whether REMOVE was
-   reported. *)
-Definition rdf_file (q : queue) (f : fsys) (p : str) : fsys * bool :=
+(* Does the loop body reach `_try_remove(path.remove)` for the queued path p, judged on the tree fd?
+   The `if` in front of the hash comparison is regenerated (rdf_hash_checked, by kind of p). *)
+Definition rdf_decide (q : queue) (fd : fsys) (p : str) : bool :=
   match qfile_get q p with
   | Some (Some h) =>
-      match refreshed f p with
-      | RKnown h' => if h' =? h then rm_file f p else (f, false)
-      | _ => (f, false)            (* changed, missing, or cannot be hashed: kept *)
-      end
-  | Some None => rm_file f p      (* volatile: whatever its content *)
-  | None => (f, false)
+      if rdf_hash_checked (lkind fd p) then
+        match refreshed fd p with
+        | RKnown h' => h' =? h
+        | _ => false                (* changed, missing, or cannot be hashed: kept *)
+        end
+      else true
+  | Some None => true               (* volatile: whatever its content *)
+  | None => false
   end.
 
-Fixpoint rdf_files (q : queue) (ps : list str) (f : fsys) (log : list str) : fsys * list str :=
+(* One queued file of remove_deletable_files; fd is the tree the decision looks at.  Returns the new
+   file system and whether REMOVE was reported. *)
+Definition rdf_file (q : queue) (fd f : fsys) (p : str) : fsys * bool :=
+  if rdf_decide q fd p then rm_file f p else (f, false).
+
+(* fd = None: one loop, every decision looks at the tree as it is by then;
+   fd = Some f0: two loops, every decision was taken on f0 before the first removal *)
+Fixpoint rdf_files_gen (q : queue) (fd : option fsys) (ps : list str) (f : fsys) (log : list str) : fsys * list str :=
   match ps with
   | [] => (f, log)
-  | p :: t => let '(f', b) := rdf_file q f p in rdf_files q t f' (if b then p :: log else log)
+  | p :: t =>
+      let '(f', b) := rdf_file q (match fd with Some x => x | None => f end) f p in
+      rdf_files_gen q fd t f' (if b then p :: log else log)
   end.
+
+Definition rdf_mode (f : fsys) : option fsys := if rdf_decide_first then Some f else None.
+
+(* the file loop(s) of remove_deletable_files started on the tree f (shape REGENERATED: rdf_decide_first) *)
+Definition rdf_files (q : queue) (ps : list str) (f : fsys) (log : list str) : fsys * list str :=
+  rdf_files_gen q (rdf_mode f) ps f log.
 
 (* parent.name not in ("..", ".", "") *)
 Definition parent_ok (par : str) : bool :=
@@ -210,27 +257,32 @@ Inductive cstep := CSkip | CRemoved | CCrash.
 (* one iteration of the loop over tr_consuming_paths *)
 Definition clean_one (a : clean_args) (f : fsys) (n : node) : fsys * cstep :=
   let p := nlabel n in
-  match fs_get f p with
-  | None => (f, CSkip)                                      (* missing *)
-  | Some ent =>
-      let is_vol := memN (nfstate n) volatile_states in
-      (* changed = state != VOLATILE and old_hash.refreshed(path) != old_hash *)
-      match (if is_vol then Some false else
-               match ent with
-               | FDir => None                                (* HashFailedError propagates *)
-               | FFile h => Some (negb (match nfhash n with Some r => h =? r | None => false end))
-               end) with
-      | None => (f, CCrash)
-      | Some changed =>
-          if a_safe a && changed then (f, CSkip)
-          else if a_commit a then
-            match ent with
-            | FFile _ => (fs_del f p, CRemoved)
-            | FDir => (f, CCrash)                            (* remove_p on a directory: IsADirectoryError *)
-            end
-          else (f, CSkip)
-      end
-  end.
+  (* missing = not path.exists()  (follows links; REGENERATED: or lexists) *)
+  let missing := if clean_missing_follows_links
+                 then match stat f p with SMissing => true | _ => false end
+                 else match fs_get f p with None => true | _ => false end in
+  if missing then (f, CSkip)
+  else
+    let is_vol := memN (nfstate n) volatile_states in
+    (* changed = state != VOLATILE and old_hash.refreshed(path) != old_hash  (kind conjuncts REGENERATED) *)
+    match (if is_vol then Some false else
+           if negb (clean_hash_checked (lkind f p)) then Some false else
+             match stat f p with
+             | SDir => None                                  (* HashFailedError propagates *)
+             | SFile h => Some (negb (match nfhash n with Some r => h =? r | None => false end))
+             | SMissing => Some (match nfhash n with Some _ => true | None => false end)   (* unknown != recorded *)
+             end) with
+    | None => (f, CCrash)
+    | Some changed =>
+        if a_safe a && changed then (f, CSkip)
+        else if a_commit a then
+          match fs_get f p with
+          | Some FDir => (f, CCrash)                         (* remove_p on a directory: IsADirectoryError *)
+          | None => (f, CSkip)                               (* remove_p suppresses FileNotFoundError *)
+          | Some _ => (fs_del f p, CRemoved)                 (* a regular file or a symbolic link (the link only) *)
+          end
+        else (f, CSkip)
+    end.
 
 Fixpoint clean_loop (a : clean_args) (ns : list node) (f : fsys) (removed : list str)
   : fsys * list str * bool :=
@@ -400,7 +452,7 @@ Fixpoint strs_eqb (a b : list str) : bool :=
   end.
 
 Definition fsent_eqb (a b : fsent) : bool :=
-  match a, b with FFile x, FFile y => x =? y | FDir, FDir => true | _, _ => false end.
+  match a, b with FFile x, FFile y => x =? y | FDir, FDir => true | FLink x, FLink y => str_eqb x y | _, _ => false end.
 
 Definition fs_match (exp got : fsys) : bool :=
   Nat.eqb (length exp) (length got) &&
